@@ -711,6 +711,12 @@ func (db *SpecDB) resolveContracts(P *Program) {
 		} else {
 			obj, err := c.resolveFunc(P)
 			if err != nil {
+				if tp := P.lookupPkg(c.PkgPath); tp != nil && !tp.Complete() {
+					// the package is only known through other packages' export data (an indirect dependency of this
+					// load): its scope is partial, the functions of this contract cannot be called by the loaded code
+					db.Skipped = append(db.Skipped, fmt.Sprintf("%s:%d (package %s only partially loaded)", c.File, c.Line, c.PkgPath))
+					continue
+				}
 				db.Errors = append(db.Errors, fmt.Sprintf("%s:%d: %v", c.File, c.Line, err))
 				continue
 			}
